@@ -105,14 +105,14 @@ Lemma skipLWS_nil : skipLWS false [] = LMore 0. Proof. reflexivity. Qed.
 Lemma zpre0 (pre rest : list byte) : zpre 0 pre rest = pre. Proof. reflexivity. Qed.
 Lemma zrest0 (rest : list byte) : zrest 0 rest = rest. Proof. reflexivity. Qed.
 
-Lemma more_here {St} (iter : list byte -> list byte -> N -> St -> ires St) obs pre rest x j t :
+Lemma more_here {St} (iter : list byte -> list byte -> N -> St -> ires St) (obs : St -> list Z) pre rest x j t :
   exists k, (k <= length rest)%nat /\ j = j + nnat k /\
-    req obs (run iter (zpre k pre (rest ++ x)) (zrest k (rest ++ x)) j 0 t) (run iter pre (rest ++ x) j 0 t).
-Proof. exists 0%nat. split; [lia|]. split; [unfold nnat; lia|]. rewrite zpre0, zrest0. apply req_refl. Qed.
+    run iter (zpre k pre (rest ++ x)) (zrest k (rest ++ x)) j 0 t = run iter pre (rest ++ x) j 0 t.
+Proof. exists 0%nat. split; [lia|]. split; [unfold nnat; lia|]. rewrite zpre0, zrest0. reflexivity. Qed.
 
-Lemma sq_IterExt : IterExt sq_iter (fun _ : unit => []).
+Lemma sq_IterExt : IterExt sq_iter.
 Proof.
-  intros pre rest x j t. set (R := run sq_iter). unfold sq_iter.
+  intros pre rest x j t _. set (R := run sq_iter). unfold sq_iter.
   destruct rest as [|c [|d r]]; cbn [app].
   - subst R. exact (more_here sq_iter (fun _ => []) pre [] x j t).
   - destruct (c =? 34); [reflexivity|].
@@ -163,35 +163,36 @@ Qed.
 Section LwsIdiom.
   Context {St : Type}.
   Variable iter : list byte -> list byte -> N -> St -> ires St.
-  Variable obs : St -> list Z.
-  Variable eoh : N -> N -> nat -> St -> ires St.      (* label endOfHdr: i, n, crl *)
+  Variable eoh : list byte -> list byte -> N -> N -> nat -> St -> ires St.   (* label endOfHdr: zipper, i, n, crl *)
   Variable closed : St -> Prop.                       (* states in which white space needs no update *)
 
-  Definition lws (R : list byte) (i : N) (s : St) : ires St :=
+  Definition lws (pre R : list byte) (i : N) (s : St) : ires St :=
     match skipLWS false R with
     | LOk k => Next k s
-    | LEOH k crl => eoh i (i + nnat k) crl s
+    | LEOH k crl => eoh pre R i (i + nnat k) crl s
     | LMore k => Ret (i + nnat k) EMore s
     end.
 
-  Hypothesis iter_ws : forall pre c r i s, closed s -> is_ws c = true -> iter pre (c :: r) i s = lws (c :: r) i s.
+  Hypothesis iter_ws : forall pre c r i s, closed s -> is_ws c = true -> iter pre (c :: r) i s = lws pre (c :: r) i s.
   Hypothesis iter_nil : forall pre i s, closed s -> iter pre [] i s = Ret i EMore s.
-  Hypothesis eoh_indep : forall i i' n crl s, closed s -> eoh i n crl s = eoh i' n crl s.
-  Hypothesis eoh_final : forall i n crl s, match eoh i n crl s with Next _ _ => False | _ => True end.
+  (* in a closed state the end-of-header action does not depend on where the zipper stands *)
+  Hypothesis eoh_adv : forall pre B i k n crl s, closed s -> (k <= length B)%nat -> i = nnat (length pre) ->
+    eoh (zpre k pre B) (zrest k B) (i + nnat k) n crl s = eoh pre B i n crl s.
+  Hypothesis eoh_final : forall pre R i n crl s, match eoh pre R i n crl s with Next _ _ => False | _ => True end.
 
-  Lemma lws_more_resume pre c r x i n s1 : closed s1 -> is_ws c = true ->
+  Lemma lws_more_resume pre c r x i n s1 : closed s1 -> is_ws c = true -> i = nnat (length pre) ->
     skipLWS false (c :: r) = LMore n ->
-    req obs (run iter (zpre n pre ((c :: r) ++ x)) (zrest n ((c :: r) ++ x)) (i + nnat n) 0 s1)
-            (after iter pre ((c :: r) ++ x) i (lws ((c :: r) ++ x) i s1)).
+    run iter (zpre n pre ((c :: r) ++ x)) (zrest n ((c :: r) ++ x)) (i + nnat n) 0 s1
+    = after iter pre ((c :: r) ++ x) i (lws pre ((c :: r) ++ x) i s1).
   Proof.
-    intros Hc Hws Hl. set (B := (c :: r) ++ x).
+    intros Hc Hws Hi Hl. set (B := (c :: r) ++ x).
     pose proof (skipLWS_ext (c :: r) x) as He. rewrite Hl in He. destruct He as [Hn He]. fold B in He.
     unfold lws at 1. rewrite He. set (R' := skipn n B) in *. change (zrest n B) with R'.
     assert (HnB : (n <= length B)%nat) by (subst B; rewrite app_length; lia).
     destruct R' as [|c' r'] eqn:ER.
     - (* nothing more yet *)
       cbn [skipLWS_nil lshift]. rewrite skipLWS_nil. cbn [lshift after]. rewrite Nat.add_0_r.
-      rewrite (run_ret iter _ _ _ _ _ _ _ (iter_nil _ _ _ Hc)). apply req_refl.
+      rewrite (run_ret iter _ _ _ _ _ _ _ (iter_nil _ _ _ Hc)). reflexivity.
     - destruct (is_ws c') eqn:Hws'.
       + rewrite run_after, (iter_ws _ _ _ _ _ Hc Hws'). unfold lws.
         pose proof (skipLWS_bounds false (c' :: r')) as Hb.
@@ -205,36 +206,39 @@ Section LwsIdiom.
           rewrite zpre_zpre by exact HnB. rewrite zrest_zrest.
           replace (n + S k')%nat with (S (n + k')) by lia.
           replace (i + nnat n + nnat (S k')) with (i + nnat (S (n + k'))) by (unfold nnat; lia).
-          apply req_refl.
-        * rewrite (eoh_indep (i + nnat n) i _ crl s1 Hc).
+          reflexivity.
+        * rewrite <- ER. unfold R'. change (skipn n B) with (zrest n B).
+          rewrite (eoh_adv pre B i n _ crl s1 Hc HnB Hi).
           replace (i + nnat n + nnat k') with (i + nnat (n + k')) by (unfold nnat; lia).
-          pose proof (eoh_final i (i + nnat (n + k')) crl s1) as Hf.
-          destruct (eoh i (i + nnat (n + k')) crl s1); [destruct Hf| |]; apply req_refl.
-        * replace (i + nnat n + nnat k') with (i + nnat (n + k')) by (unfold nnat; lia). apply req_refl.
+          pose proof (eoh_final pre B i (i + nnat (n + k')) crl s1) as Hf.
+          destruct (eoh pre B i (i + nnat (n + k')) crl s1); [destruct Hf| |]; reflexivity.
+        * replace (i + nnat n + nnat k') with (i + nnat (n + k')) by (unfold nnat; lia). reflexivity.
       + (* the white space ended exactly at n *)
         rewrite (skipLWS_nonws _ _ Hws'). cbn [lshift after]. rewrite Nat.add_0_r.
         assert (Hn0 : (0 < n)%nat).
         { destruct n; [|lia]. exfalso. subst R' B. cbn in ER. injection ER as <- _. congruence. }
         destruct n as [|n']; [lia|].
         replace (S n' <=? length B)%nat with true by (symmetry; apply Nat.leb_le; lia).
-        rewrite <- ER. unfold R'. apply req_refl.
+        rewrite <- ER. unfold R'. reflexivity.
   Qed.
 End LwsIdiom.
 
 (* ---- Call-ID ------------------------------------------------------------------------------- *)
 Definition ci_closed (s : callid) : Prop := ci_state s = CiInit \/ ci_state s = CiEnd.
 
-Lemma ci_lws_is_lws R i s : ci_lws R i s = lws ci_endOfHdr R i s.
+Definition ci_eoh (_ _ : list byte) := ci_endOfHdr.
+Lemma ci_lws_is_lws pre R i s : ci_lws R i s = lws ci_eoh pre R i s.
 Proof. reflexivity. Qed.
 
-Lemma ci_iter_ws pre c r i s : ci_closed s -> is_ws c = true -> ci_iter pre (c :: r) i s = lws ci_endOfHdr (c :: r) i s.
+Lemma ci_iter_ws pre c r i s : ci_closed s -> is_ws c = true -> ci_iter pre (c :: r) i s = lws ci_eoh pre (c :: r) i s.
 Proof. intros [H|H] Hws; unfold ci_iter; rewrite H, Hws; reflexivity. Qed.
 Lemma ci_iter_nil pre i s : ci_closed s -> ci_iter pre [] i s = Ret i EMore s.
 Proof. intros [H|H]; unfold ci_iter; rewrite H; reflexivity. Qed.
-Lemma ci_eoh_indep i i' n crl s : ci_closed s -> ci_endOfHdr i n crl s = ci_endOfHdr i' n crl s.
-Proof. intros [H|H]; unfold ci_endOfHdr; rewrite H; reflexivity. Qed.
-Lemma ci_eoh_final i n crl s : match ci_endOfHdr i n crl s with Next _ _ => False | _ => True end.
-Proof. unfold ci_endOfHdr. destruct (ci_state s); auto. destruct (pf_set _ _); exact I. Qed.
+Lemma ci_eoh_adv pre B i k n crl s : ci_closed s -> (k <= length B)%nat -> i = nnat (length pre) ->
+  ci_eoh (zpre k pre B) (zrest k B) (i + nnat k) n crl s = ci_eoh pre B i n crl s.
+Proof. intros [H|H] _ _; unfold ci_eoh, ci_endOfHdr; rewrite H; reflexivity. Qed.
+Lemma ci_eoh_final (pre R : list byte) i n crl s : match ci_eoh pre R i n crl s with Next _ _ => False | _ => True end.
+Proof. unfold ci_eoh, ci_endOfHdr. destruct (ci_state s); auto. destruct (pf_set _ _); exact I. Qed.
 
 (* the IterExt clause, as a predicate on one iteration *)
 Definition ext_clause {St} (iter : list byte -> list byte -> N -> St -> ires St) (obs : St -> list Z)
@@ -243,34 +247,34 @@ Definition ext_clause {St} (iter : list byte -> list byte -> N -> St -> ires St)
   | Next k t' => (k <= length rest)%nat -> iter pre (rest ++ x) j t = Next k t'
   | Ret o EMore t' =>
     exists k, (k <= length rest)%nat /\ o = j + nnat k /\
-      req obs (run iter (zpre k pre (rest ++ x)) (zrest k (rest ++ x)) o 0 t') (run iter pre (rest ++ x) j 0 t)
+      run iter (zpre k pre (rest ++ x)) (zrest k (rest ++ x)) o 0 t' = run iter pre (rest ++ x) j 0 t
   | Ret o e t' => iter pre (rest ++ x) j t = Ret o e t'
   | IPanic => True
   end.
 
 (* white space met in state t; s1 = the state after closing the token *)
-Lemma ci_ws_case pre c r x j t s1 : is_ws c = true -> ci_closed s1 ->
+Lemma ci_ws_case pre c r x j t s1 : j = nnat (length pre) -> is_ws c = true -> ci_closed s1 ->
   (forall R, ci_iter pre (c :: R) j t = ci_lws (c :: R) j s1) ->
   ext_clause ci_iter obs_callid pre (c :: r) x j t.
 Proof.
-  intros Hws Hcl Hit. unfold ext_clause. rewrite (Hit r). cbn [app]. rewrite (Hit (r ++ x)).
-  rewrite !ci_lws_is_lws. set (L2 := lws ci_endOfHdr (c :: r ++ x) j s1). unfold lws.
+  intros Hj Hws Hcl Hit. unfold ext_clause. rewrite (Hit r). cbn [app]. rewrite (Hit (r ++ x)).
+  unfold ci_lws. set (L2 := ci_endOfHdr). 
   pose proof (skipLWS_ext (c :: r) x) as He. cbn [app] in He.
   destruct (skipLWS false (c :: r)) as [n|n crl|n] eqn:El.
-  - subst L2. unfold lws, ci_lws. rewrite He. intros _. reflexivity.
-  - subst L2. unfold lws, ci_lws. rewrite He.
+  - subst L2. rewrite He. intros _. reflexivity.
+  - subst L2. rewrite He.
     assert (Hf : match ci_endOfHdr j (j + nnat n) crl s1 with Next _ _ => False | Ret _ EMore _ => False | _ => True end).
     { unfold ci_endOfHdr. destruct (ci_state s1); auto. destruct (pf_set _ _); exact I. }
     destruct (ci_endOfHdr j (j + nnat n) crl s1) as [? ?|? [] ?|]; try reflexivity; try exact I; destruct Hf.
   - destruct He as [Hn He]. exists n. split; [exact Hn|]. split; [reflexivity|].
-    rewrite (run_after ci_iter pre (c :: r ++ x) j t), (Hit (r ++ x)), ci_lws_is_lws.
-    apply (lws_more_resume ci_iter obs_callid ci_endOfHdr ci_closed ci_iter_ws ci_iter_nil ci_eoh_indep ci_eoh_final
-             pre c r x j n s1 Hcl Hws El).
+    subst L2. rewrite (run_after ci_iter pre (c :: r ++ x) j t), (Hit (r ++ x)), (ci_lws_is_lws pre).
+    apply (lws_more_resume ci_iter ci_eoh ci_closed ci_iter_ws ci_iter_nil ci_eoh_adv ci_eoh_final
+             pre c r x j n s1 Hcl Hws Hj El).
 Qed.
 
-Lemma ci_IterExt : IterExt ci_iter obs_callid.
+Lemma ci_IterExt : IterExt ci_iter.
 Proof.
-  intros pre rest x j t. change (ext_clause ci_iter obs_callid pre rest x j t).
+  intros pre rest x j t Hj. change (ext_clause ci_iter obs_callid pre rest x j t).
   destruct (ci_state t) eqn:Est.
   4:{ unfold ext_clause, ci_iter. rewrite Est. reflexivity. }
   all: destruct rest as [|c r];
@@ -278,14 +282,14 @@ Proof.
      exact (more_here ci_iter obs_callid pre [] x j t)|].
   all: destruct (is_ws c) eqn:Hws;
     [|unfold ext_clause, ci_iter; cbn [app]; rewrite Est, Hws; cbn; intros; reflexivity].
-  - (* Init *) apply (ci_ws_case pre c r x j t t Hws); [left; exact Est|]. intros R. unfold ci_iter. now rewrite Est, Hws.
+  - (* Init *) apply (ci_ws_case pre c r x j t t Hj Hws); [left; exact Est|]. intros R. unfold ci_iter. now rewrite Est, Hws.
   - (* Found: the token is closed first *)
     destruct (pf_set (ci_soffs t) j) as [f|] eqn:Ef.
-    + apply (ci_ws_case pre c r x j t (t <| ci_callid := f |> <| ci_state := CiEnd |>) Hws).
+    + apply (ci_ws_case pre c r x j t (t <| ci_callid := f |> <| ci_state := CiEnd |>) Hj Hws).
       * right. destruct t; reflexivity.
       * intros R. unfold ci_iter. now rewrite Est, Hws, Ef.
     + unfold ext_clause, ci_iter. now rewrite Est, Hws, Ef.
-  - (* End *) apply (ci_ws_case pre c r x j t t Hws); [right; exact Est|]. intros R. unfold ci_iter. now rewrite Est, Hws.
+  - (* End *) apply (ci_ws_case pre c r x j t t Hj Hws); [right; exact Est|]. intros R. unfold ci_iter. now rewrite Est, Hws.
 Qed.
 
 Theorem callid_ExtOK : ExtOK parse_callid obs_callid (fun _ _ => True).
@@ -293,21 +297,23 @@ Proof. exact (parse_ExtOK ci_iter obs_callid ci_IterExt). Qed.
 
 (* ---- unsigned integer values (Expires; Content-Length adds a post-check) --------------------- *)
 Definition ui_closed (s : uintb) : Prop := ui_state s = ClInit \/ ui_state s = ClEnd.
-Lemma ui_lws_is_lws R i s : ui_lws R i s = lws ui_endOfHdr R i s. Proof. reflexivity. Qed.
-Lemma ui_iter_ws pre c r i s : ui_closed s -> is_ws c = true -> ui_iter pre (c :: r) i s = lws ui_endOfHdr (c :: r) i s.
+Definition ui_eoh (_ _ : list byte) := ui_endOfHdr.
+Lemma ui_lws_is_lws pre R i s : ui_lws R i s = lws ui_eoh pre R i s. Proof. reflexivity. Qed.
+Lemma ui_iter_ws pre c r i s : ui_closed s -> is_ws c = true -> ui_iter pre (c :: r) i s = lws ui_eoh pre (c :: r) i s.
 Proof. intros [H|H] Hws; unfold ui_iter; rewrite H, Hws; reflexivity. Qed.
 Lemma ui_iter_nil pre i s : ui_closed s -> ui_iter pre [] i s = Ret i EMore s.
 Proof. intros [H|H]; unfold ui_iter; rewrite H; reflexivity. Qed.
-Lemma ui_eoh_indep i i' n crl s : ui_closed s -> ui_endOfHdr i n crl s = ui_endOfHdr i' n crl s.
-Proof. intros [H|H]; unfold ui_endOfHdr; rewrite H; reflexivity. Qed.
-Lemma ui_eoh_final i n crl s : match ui_endOfHdr i n crl s with Next _ _ => False | _ => True end.
-Proof. unfold ui_endOfHdr. destruct (ui_state s); auto. destruct (pf_set _ _); exact I. Qed.
+Lemma ui_eoh_adv pre B i k n crl s : ui_closed s -> (k <= length B)%nat -> i = nnat (length pre) ->
+  ui_eoh (zpre k pre B) (zrest k B) (i + nnat k) n crl s = ui_eoh pre B i n crl s.
+Proof. intros [H|H] _ _; unfold ui_eoh, ui_endOfHdr; rewrite H; reflexivity. Qed.
+Lemma ui_eoh_final (pre R : list byte) i n crl s : match ui_eoh pre R i n crl s with Next _ _ => False | _ => True end.
+Proof. unfold ui_eoh, ui_endOfHdr. destruct (ui_state s); auto. destruct (pf_set _ _); exact I. Qed.
 
-Lemma ui_ws_case pre c r x j t s1 : is_ws c = true -> ui_closed s1 ->
+Lemma ui_ws_case pre c r x j t s1 : j = nnat (length pre) -> is_ws c = true -> ui_closed s1 ->
   (forall R, ui_iter pre (c :: R) j t = ui_lws (c :: R) j s1) ->
   ext_clause ui_iter obs_uint pre (c :: r) x j t.
 Proof.
-  intros Hws Hcl Hit. unfold ext_clause. rewrite (Hit r). cbn [app]. rewrite (Hit (r ++ x)).
+  intros Hj Hws Hcl Hit. unfold ext_clause. rewrite (Hit r). cbn [app]. rewrite (Hit (r ++ x)).
   unfold ui_lws.
   pose proof (skipLWS_ext (c :: r) x) as He. cbn [app] in He.
   destruct (skipLWS false (c :: r)) as [n|n crl|n] eqn:El.
@@ -317,14 +323,14 @@ Proof.
     { unfold ui_endOfHdr. destruct (ui_state s1); auto. destruct (pf_set _ _); exact I. }
     destruct (ui_endOfHdr j (j + nnat n) crl s1) as [? ?|? [] ?|]; try reflexivity; try exact I; destruct Hf.
   - destruct He as [Hn He]. exists n. split; [exact Hn|]. split; [reflexivity|].
-    rewrite (run_after ui_iter pre (c :: r ++ x) j t), (Hit (r ++ x)), ui_lws_is_lws.
-    apply (lws_more_resume ui_iter obs_uint ui_endOfHdr ui_closed ui_iter_ws ui_iter_nil ui_eoh_indep ui_eoh_final
-             pre c r x j n s1 Hcl Hws El).
+    rewrite (run_after ui_iter pre (c :: r ++ x) j t), (Hit (r ++ x)), (ui_lws_is_lws pre).
+    apply (lws_more_resume ui_iter ui_eoh ui_closed ui_iter_ws ui_iter_nil ui_eoh_adv ui_eoh_final
+             pre c r x j n s1 Hcl Hws Hj El).
 Qed.
 
-Lemma ui_IterExt : IterExt ui_iter obs_uint.
+Lemma ui_IterExt : IterExt ui_iter.
 Proof.
-  intros pre rest x j t. change (ext_clause ui_iter obs_uint pre rest x j t).
+  intros pre rest x j t Hj. change (ext_clause ui_iter obs_uint pre rest x j t).
   destruct (ui_state t) eqn:Est.
   4:{ unfold ext_clause, ui_iter. rewrite Est. reflexivity. }
   all: destruct rest as [|c r];
@@ -333,13 +339,13 @@ Proof.
   all: destruct (is_ws c) eqn:Hws;
     [|unfold ext_clause, ui_iter; cbn [app]; rewrite Est, Hws; destruct (is_digit c); try destruct (acc32 _ _);
       cbn; intros; reflexivity].
-  - apply (ui_ws_case pre c r x j t t Hws); [left; exact Est|]. intros R. unfold ui_iter. now rewrite Est, Hws.
+  - apply (ui_ws_case pre c r x j t t Hj Hws); [left; exact Est|]. intros R. unfold ui_iter. now rewrite Est, Hws.
   - destruct (pf_set (ui_soffs t) j) as [f|] eqn:Ef.
-    + apply (ui_ws_case pre c r x j t (t <| ui_sval := f |> <| ui_state := ClEnd |>) Hws).
+    + apply (ui_ws_case pre c r x j t (t <| ui_sval := f |> <| ui_state := ClEnd |>) Hj Hws).
       * right. destruct t; reflexivity.
       * intros R. unfold ui_iter. now rewrite Est, Hws, Ef.
     + unfold ext_clause, ui_iter. now rewrite Est, Hws, Ef.
-  - apply (ui_ws_case pre c r x j t t Hws); [right; exact Est|]. intros R. unfold ui_iter. now rewrite Est, Hws.
+  - apply (ui_ws_case pre c r x j t t Hj Hws); [right; exact Est|]. intros R. unfold ui_iter. now rewrite Est, Hws.
 Qed.
 
 Theorem uint_ExtOK : ExtOK parse_uint obs_uint (fun _ _ => True).
